@@ -278,6 +278,12 @@ def main(argv):
         return setup()
     if len(argv) >= 2 and argv[0] == "--unit":
         return dev_unit(argv[1], canaries="--no-canary" not in argv)
+    if len(argv) >= 2 and argv[0] == "--selftest":
+        st = selftest.run_mutants([argv[1]], None)
+        for d in st["summary"]["details"]:
+            print(f"  {d['status']:9s} {d['mutant']}: {d['obligation_or_reason'][:200]}")
+        print(f"selftest {argv[1]}: {st['summary']['killed']}/{st['summary']['mutants']} mutants killed")
+        return 0 if not st["problems"] else 2
     if len(argv) >= 1 and argv[0] == "--clean":
         rmtree(SCRATCH_ROOT)
         rmtree(BUILD)
